@@ -84,3 +84,21 @@ class Anything:
         return False
 
     __hash__ = None
+
+
+def mapping_entry_class():
+    """A user's Entry subclass that also behaves like a mapping of its fields (sized, iterable over its field keys, falsy
+    when it has no fields - a virtual collections.abc.Collection): still ONE block, an entry for every clause."""
+    from bibtexparser.model import Entry
+
+    class MappingEntry(Entry):
+        def __len__(self):
+            return len(self.fields)
+
+        def __iter__(self):
+            return iter([f.key for f in self.fields])
+
+        def __contains__(self, k):
+            return k in self.fields_dict
+
+    return MappingEntry
